@@ -5,6 +5,7 @@ mod api;
 mod conv;
 mod ops;
 mod selfcheck;
+mod surface;
 #[cfg(all(feature = "std", unix))]
 mod stdapi;
 mod val;
